@@ -1,6 +1,7 @@
 package input
 
 import (
+	"github.com/gontainer/gontainer-helpers/v3/grouperror"
 	"reflect"
 	"strings"
 
@@ -172,6 +173,26 @@ func VF_C11_param_value() {
 		vfAssert(strings.Contains(err.Error(), vfQuote("p")), "parameter value diagnostic names the parameter")
 	}
 	vfReach("C11_param_value")
+}
+
+func init() { vfRegister("VF_C11_param_both", VF_C11_param_both) }
+
+// VF_C11_param_both: the name rule and the value rule of a parameter are
+// independent: each defect is reported whether or not the other is present on
+// the same key, so a key with both gets two diagnostics.
+func VF_C11_param_both() {
+	n := vfStr("name", vfN(4, 8))
+	v := vfAny("v", 1)
+	err := ValidateParams(Input{Params: map[string]any{n: v}})
+	want := 0
+	if !vfInRe(n, az(docName)) {
+		want++
+	}
+	if !vfIsPrimitiveRef(v) {
+		want++
+	}
+	vfAssert(len(grouperror.Collection(err)) == want, "one diagnostic per defect of a parameter (name and value are checked independently)")
+	vfReach("C11_param_both")
 }
 
 func VF_C11_service_name() {
